@@ -36,6 +36,10 @@ private theorem okPrefix_encodable (cd : Codec α) (cfg : EncCfg) (evs : List (S
 private theorem payload_lt_of_encodable (cd : Codec α) (cfg : EncCfg) (m : α) (h : encodeErr cd cfg m = none) :
     (Framing.payload cd cfg m).length < 4294967296 := by
   simp only [encodeErr] at h
+  cases hsf : cd.serFail m with
+  | true => simp [hsf] at h
+  | false =>
+  simp only [hsf, Bool.false_eq_true, ↓reduceIte] at h
   cases hm : cfg.maxSize with
   | none => simp [hm, u32Max] at h; omega
   | some l =>
@@ -112,6 +116,35 @@ theorem C03_client_body_wellformed (cd : Codec α) (cfg : EncCfg) (hs : cfg.serv
     | none => rw [hf] at hrun; exact Or.inr (by simpa [Enc.init] using hrun)
 
 
+/-- **`is_end_stream()` is true only after the trailers frame (server) and never for a client
+body.**  Whatever the source does and however often the body is polled: if `is_end_stream()`
+observed before poll `i` (or after the last poll) is true, then the body is a server body, one of
+the polls before `i` produced the trailers frame (so hyper, which stops polling a body whose
+`is_end_stream` is true, has already been handed the grpc-status), and every poll from `i` on
+yields `None`. -/
+theorem C03_end_stream_only_after_trailers (cd : Codec α) (cfg : EncCfg) (n : Nat) (evs : List (SrcEv α))
+    (i : Nat) (h : (Enc.endFlags cd cfg n Enc.init evs)[i]? = some true) :
+    cfg.server = true ∧
+    (∃ (j : Nat) (st : St), j < i ∧ (Enc.run cd cfg n Enc.init evs)[j]? = some (FrameOut.trailers st)) ∧
+    ∀ (j : Nat) (o : FrameOut), i ≤ j → (Enc.run cd cfg n Enc.init evs)[j]? = some o → o = FrameOut.none :=
+  endFlags_sound cd cfg n Enc.init evs rfl i h
+
+/-- `size_hint()` is sound in every state: its lower bound is 0 and it claims no upper bound. -/
+theorem C03_size_hint_sound (b : BodySt) : Enc.sizeHint b = (0, none) := rfl
+
+/-- **An `Encoder::encode` failure at any position** (outcome "encode failure" of the property):
+if the encoder fails on a message that follows any number of `Pending`s and encodable messages,
+nothing of that message is on the wire — the body carries exactly the frames of the messages
+before it (`C03_server_body_wellformed` / `C03_client_body_wellformed` with this `okPrefix`) —
+and the status is INTERNAL. -/
+theorem C03_encode_failure_any_position (cd : Codec α) (cfg : EncCfg) (pre rest : List (SrcEv α)) (m : α)
+    (hpre : AllOk cd cfg pre) (hm : cd.serFail m = true) :
+    okPrefix cd cfg (pre ++ .item m :: rest) = itemsOfEvs pre ∧
+    finalSt cd cfg (pre ++ .item m :: rest) = some ⟨13, .encode⟩ := by
+  obtain ⟨h1, h2⟩ := okPrefix_append cd cfg pre (.item m :: rest) hpre
+  rw [h1, h2]
+  simp [okPrefix, finalSt, serFail_encodeErr cd cfg m hm]
+
 /-! ### Header clauses (request line, trailers-only response)
 
 These are theorems about `Model/Interceptor.lean`'s model of `client::Grpc::prepare_request`
@@ -138,15 +171,19 @@ theorem C03_request_line {β : Type} (originPrefix originPath path : Bytes) (q :
   refine ⟨?_, getAll_insert_self _ _ _⟩
   rw [getAll_insert_ne _ _ _ _ hne, getAll_insert_self]
 
-/-- **A trailers-only response carries `content-type: application/grpc` and is HTTP 200 with an
-empty body**: `Status::into_http` writes the status into the headers of a fresh response. -/
-theorem C03_trailers_only_response {ρ : Type} (dflt : ρ) (st : GStatus) (r : Response ρ)
-    (h : Interceptor.statusIntoHttp dflt st = some r) :
-    r.status = 200 ∧ r.body = dflt := by
-  simp only [Interceptor.statusIntoHttp, Interceptor.statusIntoHttpWith] at h
-  split at h
-  · cases h; exact ⟨rfl, rfl⟩
-  · cases h
+/-- **A trailers-only response carries `content-type: application/grpc`, is HTTP 200, has an
+empty body and exactly one `grpc-status`, in its headers**: `Status::into_http` never fails, and
+the response it builds has status 200, the body it was given (`Body::empty()`), exactly one
+`content-type` value — `application/grpc` — and exactly one `grpc-status` value, the status's
+code, whatever metadata the status carries (a forged `grpc-status` or `content-type` entry in
+the status's metadata cannot add a second value). -/
+theorem C03_trailers_only_response {ρ : Type} (dflt : ρ) (st : GStatus) :
+    ∃ r, Interceptor.statusIntoHttp dflt st = some r ∧
+      r.status = 200 ∧ r.body = dflt ∧
+      getAll Interceptor.nameContentType r.headers = [(Interceptor.grpcContentType, false)] ∧
+      getAll Interceptor.nameGrpcStatus r.headers = [(Interceptor.codeHeaderValue st.code, false)] := by
+  obtain ⟨H, h, hct, hgs, _⟩ := Interceptor.statusIntoHttp_headers dflt st
+  exact ⟨_, h, rfl, rfl, hct, hgs⟩
 
 end Headers
 
